@@ -238,6 +238,15 @@ func (matrix *DenseReal32Matrix) SetIdentity() {
   }
 }
 func (matrix *DenseReal32Matrix) Reset() {
+  if matrix.rows*matrix.cols != len(matrix.values) {
+    // the matrix is a slice of a larger matrix
+    for i := 0; i < matrix.rows; i++ {
+      for j := 0; j < matrix.cols; j++ {
+        matrix.values[matrix.index(i, j)].Reset()
+      }
+    }
+    return
+  }
   for i := 0; i < len(matrix.values); i++ {
     matrix.values[i].Reset()
   }
